@@ -38,6 +38,28 @@ def gen_pair(rng, big=False):
             rwgen.line(chain, method, ae, "-", 0, "cl", ops), rwgen.line(plain, method, ae, "-", 0, "cl", ops)]
 
 
+def over_cap_pairs():
+    """The buffering cap crossed early, with many ReverseProxy-sized writes after it — the shape in
+    which a writer that falls back to streaming must keep streaming (with and without a declared
+    length, the crossing write first / in the middle)."""
+    eps = []
+    for k, (first, tail, with_cl) in enumerate([(CAP - 100, 6, False), (CAP + 1, 4, True), (4 << 20, 0, False)]):
+        sizes = [first] + [32768] * tail + [123]
+        if first == 4 << 20:
+            sizes = [4 << 20, 4 << 20, 4 << 20, 32768, 32768, 1 << 20, 77]
+        total = sum(sizes)
+        ops = ["sh:Content-Type:text%2Fplain"] + (["sh:Content-Length:%d" % total] if with_cl else []) + ["wh:200"]
+        seed = 5 + k
+        for n in sizes:
+            ops.append("w:%d:%d" % (n, seed))
+            seed = (seed + n) % 251
+        chain = ["gz.6.100.text%2F", "log+gz.-1.0.text%2F", "gz.1.10.text%2F+sl.1000000.100000000"][k]
+        plain = ["none", "log", "sl.1000000.100000000"][k]
+        eps.append(["# meta %d %s" % ([100, 0, 10][k], "text%2F"),
+                    rwgen.line(chain, "GET", "gzip", "-", 0, "cl", ops), rwgen.line(plain, "GET", "gzip", "-", 0, "cl", ops)])
+    return eps
+
+
 def oracle_pair(ep, outs):
     if not ep or not ep[0].startswith("# meta") or len(outs) != 2:
         return []
@@ -98,7 +120,7 @@ def check(ctx):
     binary = c14.build(ctx)
     d = C.Differential(ctx, binary, timeout=1200)
     n = 2500 if ctx.thorough() else 350
-    episodes = [gen_pair(ctx.rng) for _ in range(n)] + [gen_pair(ctx.rng, big=True) for _ in range(6 if ctx.thorough() else 2)]
+    episodes = [gen_pair(ctx.rng) for _ in range(n)] + [gen_pair(ctx.rng, big=True) for _ in range(6 if ctx.thorough() else 2)] + over_cap_pairs()
     corpus = C.load_corpus(ID)
     bad = d.check(corpus + episodes, oracle=oracle_pair, label="gzip")
     comp = ident = 0
